@@ -70,7 +70,8 @@ def run_verus_unit(unit, tier, rlimit=None):
         res["undecided"] = f"extract: {e}"; return res
     except Exception as e:  # overlay bug
         res["undecided"] = f"assemble-error: {type(e).__name__}: {e}"; return res
-    path = os.path.join(BUILD, unit + os.environ.get("VERIF_BUILD_SUFFIX", "") + ".rs")
+    # one file per process: concurrent checks of properties that share a unit must not overwrite each other's input
+    path = os.path.join(BUILD, f"{unit}_p{os.getpid()}.rs")
     open(path, "w").write(a["text"])
     res["rewrites"] = [dict(rule=r, where=w, what=x[:160]) for (r, w, x) in a["log"]]
     res["functions"] = a["functions"]
@@ -87,6 +88,11 @@ def run_verus_unit(unit, tier, rlimit=None):
         p = subprocess.run(cmd, capture_output=True, text=True, timeout=900, cwd=BUILD)
     except subprocess.TimeoutExpired:
         res["undecided"] = "verus timeout (900 s)"; return res
+    finally:
+        try: os.replace(path, os.path.join(BUILD, unit + os.environ.get("VERIF_BUILD_SUFFIX", "") + ".rs"))   # keep the last input for inspection
+        except OSError: pass
+    res["file"] = os.path.join(BUILD, unit + ".rs")
+    res["cmd"] = " ".join(cmd).replace(path, res["file"])
     res["wall_s"] = time.time() - t0
     try:
         j = json.loads(p.stdout)
